@@ -1171,9 +1171,9 @@ class ImageSegmentHeader0(NITFElement):
     @IGEOLO.setter
     def IGEOLO(self, value):
         value = _parse_str(value, 60, None, 'IGEOLO', self)
-        if value is None and self.ICORDS.strip() != '':
+        if value is None and self.ICORDS.strip() not in ('', 'N'):
             value = '\x20'*60
-        if value is not None and self.ICORDS.strip() == '':
+        if value is not None and self.ICORDS.strip() in ('', 'N'):
             value = None
         self._IGEOLO = value
 
@@ -1225,7 +1225,7 @@ class ImageSegmentHeader0(NITFElement):
             out = start+2
         elif attribute == 'ICORDS':
             fields['ICORDS'] = value[start:start+1]
-            if fields['ICORDS'] == b'N':
+            if fields['ICORDS'] in (b'N', b' '):
                 fields['IGEOLO'] = None
             out = start+1
         else:
